@@ -1,9 +1,1004 @@
 package props
 
-import "verif/internal/core"
+import (
+	"encoding/json"
+	"fmt"
+	"math/rand"
+	"net/http"
+	"net/url"
+	"sort"
+	"strconv"
+	"strings"
+	"time"
 
-// C17 — stub, replaced by the real check.
+	"verif/internal/core"
+)
+
+// ---- what is sent to the test binary ---------------------------------------
+
+type e3OAuth struct {
+	Email string `json:"email"`
+	Admin bool   `json:"admin,omitempty"`
+}
+
+type e3Call struct {
+	Module  string            `json:"module"`
+	Method  string            `json:"method"`
+	Path    string            `json:"path"`
+	Headers map[string]string `json:"headers,omitempty"`
+	Body    string            `json:"body,omitempty"`
+	OAuth   *e3OAuth          `json:"oauth,omitempty"`
+	AEUser  string            `json:"ae_user,omitempty"`
+	AEAdmin bool              `json:"ae_admin,omitempty"`
+	ReqID   string            `json:"req_id,omitempty"`
+}
+
+type c17BackendRec struct {
+	ID           string   `json:"id"`
+	BackendUser  string   `json:"backendUser"`
+	EndUser      string   `json:"endUser"`
+	PathPrefixes []string `json:"pathPrefixes"`
+}
+
+type c17Setup struct {
+	Op       string         `json:"op"`
+	Owner    string         `json:"owner"`
+	Backend  *c17BackendRec `json:"backend,omitempty"`
+	ID       string         `json:"id,omitempty"`
+	RID      string         `json:"rid,omitempty"`
+	User     string         `json:"user,omitempty"`
+	Contents string         `json:"contents,omitempty"`
+}
+
+// c17Meta is the oracle's view of a case (ignored by the test binary).
+type c17Meta struct {
+	Kind     string `json:"kind"`               // agent | admin | user | cron | wrong-module
+	Endpoint string `json:"endpoint,omitempty"` // pending | request | response | admin op
+	Ident    string `json:"ident"`              // class of the caller identity
+	Email    string `json:"email,omitempty"`    // OAuth / App Engine e-mail of the caller
+	IsAdmin  bool   `json:"is_admin,omitempty"`
+	Named    string `json:"named,omitempty"`       // backend ID named by the call
+	NamedCls string `json:"named_class,omitempty"` // own | other | unknown | empty
+	RID      string `json:"rid,omitempty"`
+	RIDCls   string `json:"rid_class,omitempty"` // own-pending | own-answered | other-pending | other-answered | unknown | empty | n/a
+	RIDOwner string `json:"rid_owner,omitempty"`
+	Target   string `json:"target,omitempty"` // admin: backend the call is about
+	History  bool   `json:"history,omitempty"`
+}
+
+type c17Case struct {
+	I     int     `json:"i"`
+	Call  e3Call  `json:"call"`
+	Keep  bool    `json:"keep,omitempty"`
+	Until bool    `json:"until,omitempty"`
+	Meta  c17Meta `json:"meta"`
+}
+
+type c17Req struct {
+	RID, User, Secret, Contents string
+	Answered                    bool
+	Answer                      string
+}
+
+type c17B struct {
+	Rec  c17BackendRec
+	Reqs []*c17Req
+}
+
+type c17World struct {
+	ID     string      `json:"id"`
+	Setup  []c17Setup  `json:"setup"`
+	Cases  []*c17Case  `json:"cases"`
+	Bs     []*c17B     `json:"-"`
+	Exotic bool        `json:"-"`
+	owned  map[string]map[string]bool
+	slow   bool
+}
+
+const (
+	hdrBackend = "X-Inverting-Proxy-Backend-ID"
+	hdrRequest = "X-Inverting-Proxy-Request-ID"
+	hdrUser    = "X-Inverting-Proxy-User-ID"
+)
+
+func escPath(p string) string { return (&url.URL{Path: p}).EscapedPath() }
+
+func c17GenWorld(rng *rand.Rand, w int, quick bool) *c17World {
+	wd := &c17World{ID: fmt.Sprintf("w%d", w), owned: map[string]map[string]bool{}}
+	wd.Exotic = w%5 == 4
+	n := 1 + w%3
+	if w%7 == 6 {
+		n = 3
+	}
+	sharedAgent := n >= 2 && w%4 == 1
+	for i := 0; i < n; i++ {
+		id := fmt.Sprintf("bk%dx%d", w, i)
+		if wd.Exotic {
+			id = fmt.Sprintf("bk%d\"x:%d q", w, i)
+		}
+		b := &c17B{Rec: c17BackendRec{ID: id, BackendUser: fmt.Sprintf("agent%d-w%d@sa.example.com", i, w)}}
+		if sharedAgent && i == 1 {
+			b.Rec.BackendUser = wd.Bs[0].Rec.BackendUser
+		}
+		switch (w + i) % 3 {
+		case 0:
+			b.Rec.EndUser = fmt.Sprintf("user%d-w%d@u.example.com", i, w)
+		case 1:
+			b.Rec.EndUser = "allUsers"
+		default:
+			b.Rec.EndUser = fmt.Sprintf("user0-w%d@u.example.com", w) // possibly shared between backends
+		}
+		switch rng.Intn(3) {
+		case 0:
+			b.Rec.PathPrefixes = []string{fmt.Sprintf("/s%d/", i)}
+		case 1:
+			b.Rec.PathPrefixes = []string{"/", fmt.Sprintf("/s%d/", i)}
+		default:
+			b.Rec.PathPrefixes = []string{fmt.Sprintf("/s%d/", i), fmt.Sprintf("/s%d/deep/", (i+1)%n)}
+		}
+		nPending := 1 + rng.Intn(2)
+		nAnswered := rng.Intn(2)
+		for k := 0; k < nPending+nAnswered; k++ {
+			rid := fmt.Sprintf("rq%dx%dx%d", w, i, k)
+			if wd.Exotic {
+				rid = fmt.Sprintf("rq%d:%d\"%d", w, i, k)
+			}
+			secret := fmt.Sprintf("sec%dx%dx%d-%08x", w, i, k, rng.Uint32())
+			user := b.Rec.EndUser
+			if user == "allUsers" {
+				user = fmt.Sprintf("visitor%d-w%d@u.example.com", k, w)
+			}
+			rq := &c17Req{RID: rid, User: user, Secret: secret,
+				Contents: fmt.Sprintf("POST %sdoc/%s HTTP/1.1\r\nHost: proxy.example\r\nCookie: session=%s\r\nContent-Length: %d\r\n\r\nbody-%s", b.Rec.PathPrefixes[0], secret, secret, len(secret)+5, secret)}
+			if k >= nPending {
+				rq.Answered = true
+				rq.Answer = fmt.Sprintf("HTTP/1.1 200 OK\r\nX-Answer: ans-%s\r\nContent-Length: 2\r\n\r\nok", secret)
+			}
+			b.Reqs = append(b.Reqs, rq)
+		}
+		wd.Bs = append(wd.Bs, b)
+	}
+	for _, b := range wd.Bs {
+		rec := b.Rec
+		wd.Setup = append(wd.Setup, c17Setup{Op: "backend", Owner: b.Rec.ID, Backend: &rec, ID: b.Rec.ID})
+		wd.Setup = append(wd.Setup, c17Setup{Op: "seen", Owner: b.Rec.ID, ID: b.Rec.ID})
+		for _, rq := range b.Reqs {
+			wd.Setup = append(wd.Setup, c17Setup{Op: "request", Owner: b.Rec.ID, ID: b.Rec.ID, RID: rq.RID, User: rq.User, Contents: rq.Contents})
+			if rq.Answered {
+				wd.Setup = append(wd.Setup, c17Setup{Op: "answer", Owner: b.Rec.ID, ID: b.Rec.ID, RID: rq.RID, Contents: rq.Answer})
+			}
+		}
+	}
+	return wd
+}
+
+type c17Ident struct {
+	cls   string
+	oauth *e3OAuth
+}
+
+func (wd *c17World) add(c *c17Case) *c17Case {
+	wd.Cases = append(wd.Cases, c)
+	return c
+}
+
+func (wd *c17World) agentCall(id c17Ident, endpoint, named, namedCls, rid, ridCls, ridOwner string) *c17Case {
+	c := &c17Case{Meta: c17Meta{Kind: "agent", Endpoint: endpoint, Ident: id.cls, Named: named, NamedCls: namedCls, RID: rid, RIDCls: ridCls, RIDOwner: ridOwner}}
+	c.Call = e3Call{Module: "agent", Method: "GET", Path: "/agent/" + endpoint, Headers: map[string]string{}, OAuth: id.oauth}
+	if id.oauth != nil {
+		c.Meta.Email = id.oauth.Email
+	}
+	if namedCls != "empty" {
+		c.Call.Headers[hdrBackend] = named
+	}
+	if ridCls != "empty" && ridCls != "n/a" {
+		c.Call.Headers[hdrRequest] = rid
+	}
+	if endpoint == "response" {
+		c.Call.Method = "POST"
+		c.Call.Body = "HTTP/1.1 200 OK\r\nX-From: " + id.cls + "\r\nContent-Length: 5\r\n\r\nhello"
+	}
+	return c
+}
+
+func c17GenCases(rng *rand.Rand, wd *c17World, keepFrac float64, history bool) {
+	w := wd.ID
+	idents := []c17Ident{{"no-oauth", nil}, {"stranger", &e3OAuth{Email: "stranger-" + w + "@sa.example.com"}},
+		{"oauth-admin-not-agent", &e3OAuth{Email: "root-" + w + "@corp.example.com", Admin: true}}}
+	seenAgent := map[string]bool{}
+	for _, b := range wd.Bs {
+		if !seenAgent[b.Rec.BackendUser] {
+			seenAgent[b.Rec.BackendUser] = true
+			idents = append(idents, c17Ident{"agent", &e3OAuth{Email: b.Rec.BackendUser}})
+		}
+	}
+	type named struct{ id, cls string }
+	nameds := []named{{"ghost-" + w, "unknown"}, {"", "empty"}}
+	for _, b := range wd.Bs {
+		nameds = append(nameds, named{b.Rec.ID, "registered"})
+	}
+	type ridT struct{ rid, state, owner string }
+	rids := []ridT{{"nosuch-" + w, "unknown", ""}, {"", "empty", ""}}
+	for _, b := range wd.Bs {
+		doneP, doneA := false, false
+		for _, rq := range b.Reqs {
+			if !rq.Answered && !doneP {
+				rids = append(rids, ridT{rq.RID, "pending", b.Rec.ID})
+				doneP = true
+			}
+			if rq.Answered && !doneA {
+				rids = append(rids, ridT{rq.RID, "answered", b.Rec.ID})
+				doneA = true
+			}
+		}
+	}
+	// agent endpoints: identity x endpoint x named backend x request ID
+	for _, id := range idents {
+		for _, ep := range []string{"pending", "request", "response"} {
+			for _, nm := range nameds {
+				authorised := false
+				for _, b := range wd.Bs {
+					if nm.cls == "registered" && b.Rec.ID == nm.id && id.oauth != nil && id.oauth.Email == b.Rec.BackendUser {
+						authorised = true
+					}
+				}
+				rl := rids
+				if ep == "pending" {
+					rl = []ridT{{"", "n/a", ""}}
+					if rng.Intn(3) == 0 && len(rids) > 2 {
+						rl = append(rl, rids[2+rng.Intn(len(rids)-2)]) // an irrelevant request ID header
+					}
+				}
+				kept := 0
+				for k, rd := range rl {
+					last := k == len(rl)-1
+					if !authorised && rng.Float64() > keepFrac && !(last && kept == 0) {
+						continue
+					}
+					kept++
+					namedCls := nm.cls
+					ridCls := rd.state
+					if rd.owner != "" {
+						if rd.owner == nm.id {
+							ridCls = "own-" + rd.state
+						} else {
+							ridCls = "other-" + rd.state
+						}
+					}
+					if nm.cls == "registered" {
+						namedCls = "other"
+						if authorised {
+							namedCls = "own"
+						}
+					}
+					wd.add(wd.agentCall(id, ep, nm.id, namedCls, rd.rid, ridCls, rd.owner))
+				}
+			}
+		}
+	}
+	// agent-module oddities: App Engine admin user without OAuth; path outside the three endpoints
+	b0 := wd.Bs[0]
+	c := wd.agentCall(c17Ident{"ae-admin-no-oauth", nil}, "request", b0.Rec.ID, "other", b0.Reqs[0].RID, "other-pending", b0.Rec.ID)
+	c.Call.AEUser, c.Call.AEAdmin = "root-"+w+"@corp.example.com", true
+	wd.add(c)
+	c = wd.agentCall(c17Ident{"stranger", idents[1].oauth}, "requests-of-everybody", b0.Rec.ID, "other", b0.Reqs[0].RID, "other-pending", b0.Rec.ID)
+	c.Meta.Kind = "agent-other-path"
+	wd.add(c)
+
+	// admin API
+	admins := []struct {
+		cls     string
+		oauth   *e3OAuth
+		aeUser  string
+		aeAdmin bool
+		isAdmin bool
+	}{
+		{"ae-admin", nil, "root-" + w + "@corp.example.com", true, true},
+		{"oauth-admin", &e3OAuth{Email: "ops-" + w + "@corp.example.com", Admin: true}, "", false, true},
+		{"ae-user-not-admin", nil, b0.Reqs[0].User, false, false},
+		{"oauth-agent-not-admin", &e3OAuth{Email: b0.Rec.BackendUser}, "", false, false},
+		{"nobody", nil, "", false, false},
+	}
+	newRec := c17BackendRec{ID: "newbk-" + w, BackendUser: "newagent-" + w + "@sa.example.com", EndUser: "allUsers", PathPrefixes: []string{"/new/"}}
+	newJSON, _ := json.Marshal(newRec)
+	takeover := c17BackendRec{ID: b0.Rec.ID, BackendUser: "intruder-" + w + "@sa.example.com", EndUser: "allUsers", PathPrefixes: []string{"/"}}
+	takeoverJSON, _ := json.Marshal(takeover)
+	type adminOp struct {
+		op, method, path, body, target string
+	}
+	ops := []adminOp{
+		{"list", "GET", "/api/backends", "", ""},
+		{"add", "POST", "/api/backends", string(newJSON), newRec.ID},
+		{"add-takeover", "POST", "/api/backends", string(takeoverJSON), b0.Rec.ID},
+		{"add-garbage", "POST", "/api/backends", "{not json", ""},
+		{"add-incomplete", "POST", "/api/backends", `{"id":"half-` + w + `"}`, ""},
+		{"delete", "DELETE", "/api/backends/" + b0.Rec.ID, "", b0.Rec.ID},
+		{"delete-unknown", "DELETE", "/api/backends/ghost-" + w, "", ""},
+		{"delete-empty", "DELETE", "/api/backends/", "", ""},
+		{"put", "PUT", "/api/backends", string(newJSON), ""},
+		{"get-one", "GET", "/api/backends/" + b0.Rec.ID, "", ""},
+		{"other-path", "GET", "/api/secrets", "", ""},
+	}
+	for _, a := range admins {
+		for _, op := range ops {
+			c := &c17Case{Meta: c17Meta{Kind: "admin", Endpoint: op.op, Ident: a.cls, IsAdmin: a.isAdmin, Target: op.target}}
+			c.Call = e3Call{Module: "api", Method: op.method, Path: escPath(op.path), Body: op.body, OAuth: a.oauth, AEUser: a.aeUser, AEAdmin: a.aeAdmin}
+			if a.oauth != nil {
+				c.Meta.Email = a.oauth.Email
+			} else {
+				c.Meta.Email = a.aeUser
+			}
+			wd.add(c)
+			// follow-ups on the state the call left behind
+			switch op.op {
+			case "add":
+				f := wd.agentCall(c17Ident{"agent-of-added", &e3OAuth{Email: newRec.BackendUser}}, "request", newRec.ID, "added", "nosuch-"+w, "unknown", "")
+				f.Keep, f.Meta.Kind = true, "followup-add"
+				f.Meta.IsAdmin = a.isAdmin
+				wd.add(f)
+			case "add-takeover":
+				f := wd.agentCall(c17Ident{"intruder", &e3OAuth{Email: takeover.BackendUser}}, "request", b0.Rec.ID, "taken-over", b0.Reqs[0].RID, "other-pending", b0.Rec.ID)
+				f.Keep, f.Meta.Kind = true, "followup-takeover"
+				f.Meta.IsAdmin = a.isAdmin
+				wd.add(f)
+			case "delete":
+				f := wd.agentCall(c17Ident{"agent-of-deleted", &e3OAuth{Email: b0.Rec.BackendUser}}, "request", b0.Rec.ID, "deleted", b0.Reqs[0].RID, "own-pending", b0.Rec.ID)
+				f.Keep, f.Meta.Kind = true, "followup-delete"
+				f.Meta.IsAdmin = a.isAdmin
+				wd.add(f)
+			}
+		}
+	}
+	// /cron/delete is documented as unchecked (restricted by app.yaml): executed, not judged
+	wd.add(&c17Case{Meta: c17Meta{Kind: "cron", Endpoint: "cron-delete", Ident: "nobody"}, Call: e3Call{Module: "api", Method: "GET", Path: "/cron/delete"}})
+
+	// end users
+	users := map[string]bool{"stranger-" + w + "@u.example.com": true, "": true}
+	for _, b := range wd.Bs {
+		if b.Rec.EndUser != "allUsers" {
+			users[b.Rec.EndUser] = true
+		}
+	}
+	var ul []string
+	for u := range users {
+		ul = append(ul, u)
+	}
+	sort.Strings(ul)
+	paths := map[string]bool{"/nomatch/" + w: true}
+	for _, b := range wd.Bs {
+		for _, p := range b.Rec.PathPrefixes {
+			paths[p+"page"] = true
+		}
+	}
+	var pl []string
+	for p := range paths {
+		pl = append(pl, p)
+	}
+	sort.Strings(pl)
+	n := 0
+	for _, u := range ul {
+		for _, p := range pl {
+			if rng.Float64() > keepFrac*2 && u != "" {
+				continue
+			}
+			n++
+			c := &c17Case{Until: true, Meta: c17Meta{Kind: "user", Endpoint: "client", Ident: "end-user", Email: u}}
+			if u == "" {
+				c.Meta.Ident = "anonymous"
+			}
+			c.Call = e3Call{Module: "default", Method: "GET", Path: escPath(p), AEUser: u, ReqID: fmt.Sprintf("cl-%s-%d", w, n),
+				Headers: map[string]string{hdrBackend: wd.Bs[len(wd.Bs)-1].Rec.ID, hdrUser: "somebody-else@u.example.com"}}
+			wd.add(c)
+		}
+	}
+	// an agent call sent to the default module is an (anonymous) end-user request
+	c = wd.agentCall(c17Ident{"agent", &e3OAuth{Email: b0.Rec.BackendUser}}, "request", b0.Rec.ID, "own", b0.Reqs[0].RID, "own-pending", b0.Rec.ID)
+	c.Call.Module, c.Meta.Kind, c.Until = "default", "wrong-module", true
+	c.Call.ReqID = "cl-" + w + "-wm"
+	wd.add(c)
+
+	// histories: the same kinds of calls in random order on an evolving state
+	if history {
+		pool := append([]*c17Case(nil), wd.Cases...)
+		for h := 0; h < 2; h++ {
+			first := true
+			st := wd.baseState() // the specified effect of each step, to avoid asking for an empty pending list (30 s wait)
+			for k := 0; k < 14; k++ {
+				src := pool[rng.Intn(len(pool))]
+				if src.Meta.Kind != "agent" && src.Meta.Kind != "admin" {
+					continue
+				}
+				cp := *src
+				pred := 401
+				if cp.Meta.Kind == "agent" {
+					rec, ok := st.reg[cp.Meta.Named]
+					authd := ok && cp.Call.OAuth != nil && cp.Call.OAuth.Email == rec.BackendUser && cp.Meta.NamedCls != "empty"
+					if authd && cp.Meta.Endpoint == "pending" && len(st.pending[cp.Meta.Named]) == 0 {
+						continue
+					}
+					if authd && cp.Meta.Endpoint == "response" && st.reqOf[cp.Meta.RID] == cp.Meta.Named && st.pending[cp.Meta.Named][cp.Meta.RID] {
+						pred = 200
+					}
+				} else if cp.Meta.IsAdmin {
+					pred = 200
+				}
+				st.apply(&cp, &c17Result{Status: pred})
+				cp.Meta.History = true
+				cp.Keep = !first
+				first = false
+				wd.add(&cp)
+			}
+		}
+	}
+	for i, c := range wd.Cases {
+		c.I = i
+	}
+}
+
+// ---- results and oracle -----------------------------------------------------
+
+type c17Result struct {
+	World    string              `json:"world"`
+	I        int                 `json:"i"`
+	Status   int                 `json:"status"`
+	Hdr      map[string][]string `json:"hdr"`
+	Body     string              `json:"body"`
+	BodyLen  int                 `json:"body_len"`
+	Ops      []string            `json:"ops"`
+	Diff     []string            `json:"diff"`
+	Ms       int                 `json:"ms"`
+	Hung     bool                `json:"hung"`
+	ListedIn []string            `json:"listed_in"`
+}
+
+func mentions(s, tok string) bool {
+	if tok == "" {
+		return false
+	}
+	if strings.Contains(s, tok) {
+		return true
+	}
+	q := strconv.Quote(tok)
+	return strings.Contains(s, q[1:len(q)-1])
+}
+
+// c17State is the oracle's model of who is registered (evolves in histories).
+type c17State struct {
+	reg     map[string]c17BackendRec
+	pending map[string]map[string]bool // backend -> request IDs still pending
+	reqOf   map[string]string          // request ID -> backend
+	stale   map[string]bool            // requests of a backend that was deleted since: nothing is expected of them
+}
+
+func (wd *c17World) baseState() *c17State {
+	st := &c17State{reg: map[string]c17BackendRec{}, pending: map[string]map[string]bool{}, reqOf: map[string]string{}, stale: map[string]bool{}}
+	for _, b := range wd.Bs {
+		st.reg[b.Rec.ID] = b.Rec
+		st.pending[b.Rec.ID] = map[string]bool{}
+		for _, rq := range b.Reqs {
+			st.reqOf[rq.RID] = b.Rec.ID
+			if !rq.Answered {
+				st.pending[b.Rec.ID][rq.RID] = true
+			}
+		}
+	}
+	return st
+}
+
+// secrets returns every planted string the caller did not itself supply.
+func (wd *c17World) secrets(c *c17Case) []string {
+	supplied := c.Call.Path + "\n" + c.Call.Body + "\n" + c.Meta.Email + "\n" + c.Call.AEUser
+	for _, v := range c.Call.Headers {
+		supplied += "\n" + v
+	}
+	var out []string
+	add := func(s string) {
+		if s != "" && s != "allUsers" && !strings.Contains(supplied, s) {
+			out = append(out, s)
+		}
+	}
+	for _, b := range wd.Bs {
+		add(b.Rec.ID)
+		add(b.Rec.BackendUser)
+		add(b.Rec.EndUser)
+		for _, rq := range b.Reqs {
+			add(rq.RID)
+			add(rq.Secret)
+			add(rq.User)
+		}
+	}
+	return out
+}
+
+func (wd *c17World) leaks(c *c17Case, res *c17Result) []string {
+	hay := res.Body
+	for k, vs := range res.Hdr {
+		hay += "\n" + k + ": " + strings.Join(vs, ",")
+	}
+	var out []string
+	for _, s := range wd.secrets(c) {
+		if mentions(hay, s) {
+			out = append(out, s)
+		}
+	}
+	return out
+}
+
+func opMutating(op string) bool {
+	f := strings.Fields(op)
+	return len(f) > 0 && strings.HasSuffix(f[0], "!")
+}
+
+// foreign reports the keys (touched or changed) that belong to a backend
+// other than x: exactly-owned keys from the setup, keys naming another
+// backend's ID, keys naming another backend's request without x's ID, and
+// whole-kind queries that do not name x.
+func (wd *c17World) foreign(x string, keys []string) []string {
+	var bad []string
+	for _, k := range keys {
+		k = strings.TrimLeft(k, "+-~")
+		isBad := false
+		for _, b := range wd.Bs {
+			y := b.Rec.ID
+			if y == x {
+				continue
+			}
+			if wd.owned[y][k] && !wd.owned[x][k] {
+				isBad = true
+			}
+			if mentions(k, y) {
+				isBad = true
+			}
+			for _, rq := range b.Reqs {
+				if mentions(k, rq.RID) && !mentions(k, x) {
+					isBad = true
+				}
+			}
+		}
+		if strings.HasSuffix(k, "|*") && !mentions(k, x) {
+			isBad = true
+		}
+		if isBad {
+			bad = append(bad, k)
+		}
+	}
+	return bad
+}
+
+func opKeysOf(ops []string, mutatingOnly bool) []string {
+	var out []string
+	for _, op := range ops {
+		f := strings.SplitN(op, " ", 2)
+		if strings.HasPrefix(f[0], "user.") || len(f) < 2 {
+			continue
+		}
+		if mutatingOnly && !strings.HasSuffix(f[0], "!") {
+			continue
+		}
+		rest := strings.TrimSuffix(f[1], " ERR")
+		// keys are separated by " ds:" / " mc:" markers (keys themselves may contain spaces)
+		cur := ""
+		for _, part := range strings.Split(rest, " ") {
+			if strings.HasPrefix(part, "ds:") || strings.HasPrefix(part, "mc:") {
+				if cur != "" {
+					out = append(out, cur)
+				}
+				cur = part
+			} else {
+				cur += " " + part
+			}
+		}
+		if cur != "" {
+			out = append(out, cur)
+		}
+	}
+	return out
+}
+
+func (wd *c17World) judge(r *core.Run, c *c17Case, res *c17Result, st *c17State) {
+	m := c.Meta
+	cs := map[string]interface{}{"world": wd.ID, "backends": wd.backendRecs(), "case": c}
+	detail := map[string]interface{}{"status": res.Status, "body": core.Trunc(res.Body, 600), "headers": res.Hdr, "api_calls": res.Ops, "state_changes": res.Diff, "listed_in": res.ListedIn}
+	viol := func(sig, msg string) { r.Violate("C17:"+sig, msg, cs, detail) }
+	if res.Hung {
+		viol("handler-hangs:"+m.Kind+":"+m.Endpoint, "the handler did not return within 45 s")
+		return
+	}
+	noMutation := func(who string) {
+		var muts []string
+		for _, op := range res.Ops {
+			if opMutating(op) {
+				muts = append(muts, op)
+			}
+		}
+		if len(muts) > 0 || len(res.Diff) > 0 {
+			viol(who+"-mutates:"+m.Endpoint, fmt.Sprintf("%s call (%s, identity %s) made mutating API calls %v / changed state %v", who, m.Endpoint, m.Ident, muts, res.Diff))
+		}
+	}
+	noLeak := func(who string) {
+		if l := wd.leaks(c, res); len(l) > 0 {
+			viol(who+"-learns:"+m.Endpoint, fmt.Sprintf("%s call (%s, identity %s) was told planted data it did not supply: %v", who, m.Endpoint, m.Ident, l))
+		}
+	}
+	switch m.Kind {
+	case "cron":
+		return
+	case "agent", "followup-add", "followup-takeover", "followup-delete", "agent-other-path":
+		rec, registered := st.reg[m.Named]
+		authorised := registered && c.Call.OAuth != nil && c.Call.OAuth.Email == rec.BackendUser && c.Call.Headers[hdrBackend] == m.Named && m.NamedCls != "empty"
+		if m.Kind == "agent-other-path" {
+			noMutation("unauthorised")
+			noLeak("unauthorised")
+			if res.Status/100 == 2 {
+				viol("unknown-agent-path-succeeds", fmt.Sprintf("path %s answered %d", c.Call.Path, res.Status))
+			}
+			return
+		}
+		if !authorised {
+			if res.Status != 401 {
+				viol("unauthorised-not-401:"+m.Endpoint, fmt.Sprintf("%s by identity %s (%s) naming backend %q (%s): status %d, want 401", m.Endpoint, m.Ident, m.Email, m.Named, m.NamedCls, res.Status))
+			}
+			noMutation("unauthorised")
+			noLeak("unauthorised")
+			return
+		}
+		// authorised for backend m.Named
+		if res.Status == 401 || res.Status == 403 {
+			viol("authorised-rejected:"+m.Endpoint, fmt.Sprintf("%s by the registered agent %s of backend %q was rejected with %d", m.Endpoint, m.Email, m.Named, res.Status))
+			return
+		}
+		if bad := wd.foreign(m.Named, append(opKeysOf(res.Ops, false), res.Diff...)); len(bad) > 0 {
+			viol("touches-other-backend:"+m.Endpoint, fmt.Sprintf("%s authorised for backend %q (request ID %s) touched entities of another backend: %v", m.Endpoint, m.Named, m.RIDCls, bad))
+		}
+		owner, known := st.reqOf[m.RID]
+		ridOwn := known && owner == m.Named && c.Call.Headers[hdrRequest] != ""
+		ridOther := known && owner != m.Named
+		switch m.Endpoint {
+		case "pending":
+			if len(st.pending[m.Named]) == 0 {
+				return // nothing pending: the call legitimately waits; only reached in the dedicated slow case
+			}
+			if res.Status != 200 {
+				viol("authorised-pending-fails", fmt.Sprintf("pending list of %q: status %d", m.Named, res.Status))
+				return
+			}
+			var ids []string
+			if err := json.Unmarshal([]byte(res.Body), &ids); err != nil {
+				viol("pending-list-unparsable", "body is not a JSON list of IDs: "+err.Error())
+				return
+			}
+			if len(ids) == 0 {
+				viol("pending-list-empty", fmt.Sprintf("backend %q has pending requests %v but the list is empty", m.Named, st.pending[m.Named]))
+			}
+			for _, id := range ids {
+				if st.reqOf[id] != m.Named {
+					viol("pending-list-foreign-id", fmt.Sprintf("pending list of %q contains %q, which is not one of its requests", m.Named, id))
+				}
+			}
+		case "request":
+			switch {
+			case st.stale[m.RID]:
+				// the backend was deleted and registered again since: only the ownership rule applies
+			case ridOwn && st.registeredStill(m.Named):
+				want := wd.req(m.RID)
+				if res.Status != 200 || res.Body != want.Contents {
+					viol("authorised-fetch-wrong", fmt.Sprintf("fetch of own request %q: status %d, body matches planted request: %v", m.RID, res.Status, res.Body == want.Contents))
+				} else if got := strings.Join(res.Hdr[http.CanonicalHeaderKey(hdrUser)], ","); got != want.User {
+					viol("fetch-wrong-user-header", fmt.Sprintf("fetch of %q reports end user %q, the request was issued by %q", m.RID, got, want.User))
+				}
+			case ridOther:
+				if res.Status != 404 && !m.History {
+					viol("other-backends-request-not-404:request", fmt.Sprintf("fetch by backend %q of request %q belonging to %q: status %d, want 404", m.Named, m.RID, owner, res.Status))
+				}
+				if res.Status/100 == 2 {
+					viol("other-backends-request-served", fmt.Sprintf("fetch by backend %q of request %q belonging to %q succeeded (%d)", m.Named, m.RID, owner, res.Status))
+				}
+				noLeak("cross-backend")
+			default:
+				if res.Status/100 != 4 && !ridOwn {
+					viol("fetch-of-nonexistent-request-not-4xx", fmt.Sprintf("fetch of request ID %q (%s): status %d", m.RID, m.RIDCls, res.Status))
+				}
+				noLeak("authorised-unknown-request")
+			}
+		case "response":
+			switch {
+			case st.stale[m.RID]:
+			case ridOther:
+				if res.Status != 404 && !m.History {
+					viol("other-backends-request-not-404:response", fmt.Sprintf("response post by backend %q for request %q belonging to %q: status %d, want 404", m.Named, m.RID, owner, res.Status))
+				}
+				if res.Status/100 == 2 {
+					viol("other-backends-request-answered", fmt.Sprintf("response post by backend %q for request %q belonging to %q succeeded (%d)", m.Named, m.RID, owner, res.Status))
+				}
+				for _, d := range res.Diff {
+					if mentions(d, m.RID) {
+						viol("other-backends-request-modified", fmt.Sprintf("response post by backend %q changed state of request %q of %q: %s", m.Named, m.RID, owner, d))
+					}
+				}
+			case ridOwn && st.pending[m.Named][m.RID]:
+				if res.Status != 200 {
+					viol("authorised-response-rejected", fmt.Sprintf("response post for own pending request %q: status %d", m.RID, res.Status))
+				}
+			case !ridOwn:
+				if res.Status/100 == 2 {
+					viol("response-for-nonexistent-request-accepted", fmt.Sprintf("response post for request ID %q (%s): status %d", m.RID, m.RIDCls, res.Status))
+				}
+			}
+		}
+		return
+	case "admin":
+		if !m.IsAdmin {
+			if res.Status != 403 {
+				viol("non-admin-not-403:"+m.Endpoint, fmt.Sprintf("admin API %s %s by %s: status %d, want 403", c.Call.Method, c.Call.Path, m.Ident, res.Status))
+			}
+			noMutation("non-admin")
+			noLeak("non-admin")
+			return
+		}
+		if res.Status == 403 || res.Status == 401 {
+			viol("admin-rejected:"+m.Endpoint, fmt.Sprintf("admin API %s %s by administrator (%s): status %d", c.Call.Method, c.Call.Path, m.Ident, res.Status))
+			return
+		}
+		switch m.Endpoint {
+		case "list":
+			var got []c17BackendRec
+			if res.Status != 200 || json.Unmarshal([]byte(res.Body), &got) != nil {
+				viol("admin-list-fails", fmt.Sprintf("status %d", res.Status))
+				return
+			}
+			gm := map[string]c17BackendRec{}
+			for _, g := range got {
+				gm[g.ID] = g
+			}
+			for id, want := range st.reg {
+				g, ok := gm[id]
+				if !ok || g.BackendUser != want.BackendUser || g.EndUser != want.EndUser {
+					viol("admin-list-wrong", fmt.Sprintf("backend %q registered as %+v, listed as %+v (present: %v)", id, want, g, ok))
+				}
+			}
+			if len(gm) != len(st.reg) {
+				viol("admin-list-wrong", fmt.Sprintf("%d backends listed, %d registered", len(gm), len(st.reg)))
+			}
+		case "add", "add-takeover", "delete":
+			if res.Status != 200 {
+				viol("admin-"+m.Endpoint+"-fails", fmt.Sprintf("status %d", res.Status))
+			}
+		}
+	case "user", "wrong-module":
+		user := c.Call.AEUser
+		if user == "" {
+			if len(res.ListedIn) > 0 {
+				viol("anonymous-user-routed", fmt.Sprintf("a request without end-user identity was queued for %v", res.ListedIn))
+			}
+			noMutation("anonymous")
+			noLeak("anonymous")
+			if res.Status/100 == 2 {
+				viol("anonymous-user-served", fmt.Sprintf("status %d", res.Status))
+			}
+			return
+		}
+		for _, id := range res.ListedIn {
+			rec, ok := st.reg[id]
+			if !ok || (rec.EndUser != user && rec.EndUser != "allUsers") {
+				viol("user-routed-to-foreign-backend", fmt.Sprintf("end user %q (path %s) was routed to backend %q registered for %q", user, c.Call.Path, id, rec.EndUser))
+			}
+		}
+		for _, d := range res.Diff {
+			for id, rec := range st.reg {
+				if rec.EndUser != user && rec.EndUser != "allUsers" && mentions(d, id) {
+					viol("user-request-stored-under-foreign-backend", fmt.Sprintf("end user %q: state change %s names backend %q registered for %q", user, d, id, rec.EndUser))
+				}
+			}
+		}
+		if len(res.ListedIn) == 0 && res.Status/100 == 2 {
+			viol("unrouted-user-served", fmt.Sprintf("status %d without the request being queued for any backend", res.Status))
+		}
+		if len(res.ListedIn) == 0 {
+			noLeak("unrouted-user")
+		}
+	}
+}
+
+func (st *c17State) registeredStill(id string) bool { _, ok := st.reg[id]; return ok }
+
+// apply advances the model after a case that keeps its effects.
+func (st *c17State) apply(c *c17Case, res *c17Result) {
+	m := c.Meta
+	switch {
+	case m.Kind == "admin" && res.Status == 200 && (m.Endpoint == "add" || m.Endpoint == "add-takeover"):
+		var rec c17BackendRec
+		if json.Unmarshal([]byte(c.Call.Body), &rec) == nil {
+			st.reg[rec.ID] = rec
+			if st.pending[rec.ID] == nil {
+				st.pending[rec.ID] = map[string]bool{}
+			}
+		}
+	case m.Kind == "admin" && res.Status == 200 && m.Endpoint == "delete":
+		delete(st.reg, m.Target)
+		for rid, b := range st.reqOf {
+			if b == m.Target {
+				st.stale[rid] = true
+			}
+		}
+		st.pending[m.Target] = map[string]bool{}
+	case m.Kind == "agent" && m.Endpoint == "response" && res.Status == 200:
+		if st.reqOf[m.RID] == m.Named {
+			delete(st.pending[m.Named], m.RID)
+		}
+	}
+}
+
+func (wd *c17World) req(rid string) *c17Req {
+	for _, b := range wd.Bs {
+		for _, rq := range b.Reqs {
+			if rq.RID == rid {
+				return rq
+			}
+		}
+	}
+	return &c17Req{}
+}
+
+func (wd *c17World) backendRecs() []c17BackendRec {
+	var out []c17BackendRec
+	for _, b := range wd.Bs {
+		out = append(out, b.Rec)
+	}
+	return out
+}
+
+func (c *c17Case) class() string {
+	m := c.Meta
+	h := ""
+	if m.History {
+		h = "|history"
+	}
+	switch m.Kind {
+	case "agent":
+		return fmt.Sprintf("agent|%s|id:%s|named:%s|rid:%s%s", m.Endpoint, m.Ident, m.NamedCls, m.RIDCls, h)
+	case "admin":
+		return fmt.Sprintf("admin|%s|id:%s%s", m.Endpoint, m.Ident, h)
+	case "user":
+		return fmt.Sprintf("user|%s", m.Ident)
+	}
+	return m.Kind + "|" + m.Ident + "|admin:" + strconv.FormatBool(m.IsAdmin) + h
+}
+
+// C17 — who may act as agent, user and admin.
 func C17(r *core.Run) {
-	r.Broken("check not implemented yet")
-	r.Finish(1)
+	r.SetRule("worlds of 1-3 registered backends (distinct/shared agent accounts, per-user/shared end users, plain and exotic IDs, pending and answered requests with planted secrets) x caller identity {no OAuth, stranger, OAuth admin that is no agent, each agent} x endpoint {pending, request, response} x named backend {each, unknown, absent} x request ID {pending/answered of each backend, unknown, absent}; admin API {list, add, takeover, garbage, delete, other methods/paths} x {App Engine admin, OAuth admin, plain user, agent, nobody} with follow-up calls on the resulting state; end users x paths through the client handler; random-order histories on evolving state; every call goes through appengine's handleHTTP and the app's routing closure; class = (kind, endpoint, identity class, named-backend class, request-ID class, history?)")
+	r.Assume("/cron/delete is executed but not judged (documented as restricted by app.yaml); an authorised call reading or writing keys in its own backend's namespace that merely contain a caller-supplied foreign request ID is not counted as touching the other backend; status codes for unknown/absent request IDs are only required to be 4xx; client requests are cut short once queued (incoming context cancelled) instead of waiting 30 s")
+	bin := r.MustBuild(e3Build(r))
+	rng := r.Rand("c17")
+	nWorlds := r.Pick(45, 110)
+	keep := 0.5
+	if !r.Quick() {
+		keep = 1.0
+	}
+	var worlds []*c17World
+	total := 0
+	for w := 0; w < nWorlds; w++ {
+		wd := c17GenWorld(rng, w, r.Quick())
+		c17GenCases(rng, wd, keep, true)
+		total += len(wd.Cases)
+		worlds = append(worlds, wd)
+	}
+	if !r.Quick() {
+		// one authorised pending call on a backend with nothing pending: waits 30 s by design, then an empty list
+		wd := c17GenWorld(rng, nWorlds*3, false) // index multiple of 3 and not 4 mod 5 ... plain single backend
+		for _, b := range wd.Bs {
+			for _, rq := range b.Reqs {
+				if !rq.Answered {
+					rq.Answered, rq.Answer = true, "HTTP/1.1 204 No Content\r\n\r\n"
+				}
+			}
+		}
+		wd.Setup = nil
+		for _, b := range wd.Bs {
+			rec := b.Rec
+			wd.Setup = append(wd.Setup, c17Setup{Op: "backend", Owner: b.Rec.ID, Backend: &rec, ID: b.Rec.ID}, c17Setup{Op: "seen", Owner: b.Rec.ID, ID: b.Rec.ID})
+			for _, rq := range b.Reqs {
+				wd.Setup = append(wd.Setup, c17Setup{Op: "request", Owner: b.Rec.ID, ID: b.Rec.ID, RID: rq.RID, User: rq.User, Contents: rq.Contents},
+					c17Setup{Op: "answer", Owner: b.Rec.ID, ID: b.Rec.ID, RID: rq.RID, Contents: rq.Answer})
+			}
+		}
+		b := wd.Bs[0]
+		c := wd.agentCall(c17Ident{"agent", &e3OAuth{Email: b.Rec.BackendUser}}, "pending", b.Rec.ID, "own", "", "n/a", "")
+		c.Meta.Kind = "agent-empty-pending"
+		wd.add(c)
+		wd.slow = true
+		worlds = append([]*c17World{wd}, worlds...)
+	}
+	spec := map[string]interface{}{"mode": "c17", "workers": 16, "worlds": worlds}
+	res := e3Run(r, bin, "c17", spec, time.Duration(r.Pick(200, 900))*time.Second)
+
+	byWorld := map[string]*c17World{}
+	for _, wd := range worlds {
+		byWorld[wd.ID] = wd
+	}
+	results := map[string]map[int]*c17Result{}
+	for _, ln := range res.Lines {
+		var probe struct {
+			World string `json:"world"`
+			Setup []struct {
+				Owner string   `json:"owner"`
+				Op    string   `json:"op"`
+				Keys  []string `json:"keys"`
+				Err   string   `json:"err"`
+			} `json:"setup"`
+		}
+		if err := json.Unmarshal(ln, &probe); err != nil || byWorld[probe.World] == nil {
+			r.Broken("unreadable C17 result line: " + core.Trunc(string(ln), 200))
+			continue
+		}
+		wd := byWorld[probe.World]
+		if probe.Setup != nil {
+			for _, s := range probe.Setup {
+				if s.Err != "" {
+					r.Broken(fmt.Sprintf("C17 world %s: setup step %s for %s failed: %s", wd.ID, s.Op, s.Owner, s.Err))
+				}
+				if wd.owned[s.Owner] == nil {
+					wd.owned[s.Owner] = map[string]bool{}
+				}
+				for _, k := range s.Keys {
+					wd.owned[s.Owner][k] = true
+				}
+			}
+			continue
+		}
+		var cr c17Result
+		if err := json.Unmarshal(ln, &cr); err != nil {
+			r.Broken("unreadable C17 case result: " + core.Trunc(string(ln), 200))
+			continue
+		}
+		if results[cr.World] == nil {
+			results[cr.World] = map[int]*c17Result{}
+		}
+		results[cr.World][cr.I] = &cr
+	}
+	executed, unauth, auth, samples := 0, 0, 0, 0
+	for _, wd := range worlds {
+		if len(wd.owned) == 0 && res.SawEnd {
+			r.Broken("C17 world " + wd.ID + " reported no setup")
+			continue
+		}
+		var st *c17State
+		for _, c := range wd.Cases {
+			cr := results[wd.ID][c.I]
+			if cr == nil {
+				if res.SawEnd {
+					r.Broken(fmt.Sprintf("C17 case %s/%d was not reported", wd.ID, c.I))
+				}
+				continue
+			}
+			if !c.Keep || st == nil {
+				st = wd.baseState()
+			}
+			executed++
+			r.Case(c.class())
+			if c.Meta.Kind == "agent-empty-pending" {
+				if cr.Hung || cr.Status != 200 || strings.TrimSpace(cr.Body) != "[]" {
+					r.Violate("C17:empty-pending-list-wrong", fmt.Sprintf("authorised pending call with nothing pending: hung=%v status=%d body=%q after %d ms", cr.Hung, cr.Status, core.Trunc(cr.Body, 100), cr.Ms), c, cr)
+				}
+				r.Set("empty_pending_wait_ms", cr.Ms)
+				continue
+			}
+			wd.judge(r, c, cr, st)
+			st.apply(c, cr)
+			if cr.Status == 401 || cr.Status == 403 {
+				unauth++
+			} else if c.Meta.Kind == "agent" {
+				auth++
+			}
+			if samples < 6 && (c.Meta.Kind == "agent" && c.Meta.NamedCls == "own" && c.Meta.RIDCls == "other-pending" || c.Meta.Kind == "followup-delete" && c.Meta.IsAdmin) {
+				samples++
+				r.Sample(map[string]interface{}{"backends": wd.backendRecs(), "case": c, "status": cr.Status, "body": core.Trunc(cr.Body, 200), "api_calls": cr.Ops, "state_changes": cr.Diff})
+			}
+		}
+	}
+	r.Set("worlds", len(worlds))
+	r.Set("cases_generated", total)
+	r.Set("answered_401_or_403", unauth)
+	r.Set("agent_calls_not_rejected", auth)
+	e3Finish(r, res, r.Pick(8000, 40000))
 }
